@@ -466,6 +466,11 @@ def run(ctx):
     ctx.extra["grid_cases_total"] = len(grid) if ctx.shard == 0 else 0
     ctx.extra["grid_configurations"] = len(list(grid_configs())) if ctx.shard == 0 else 0
     grid.sort(key=lambda c: (c["N"], c["T"], c["kt"], c["ko"], c["st"], c["so"]))
+    if ctx.quick:
+        # a case costs ~60 CPU-seconds (about 20 XLA compilations): the quick tier takes a seed-rotated third
+        # of the stratified grid (every stratum is visited within three consecutive seeds; thorough takes all)
+        grid = grid[ctx.seed % 3 :: 3]
+        ctx.extra["quick_grid_third"] = ctx.seed % 3
     state = {"n": 0}
     mine = shard_slice(grid, ctx.shard, ctx.nshards)
     for case in mine:
@@ -489,7 +494,7 @@ def run(ctx):
 
     if ctx.quick and ctx.shard == 0:
         return  # shard 0 runs the two regression probes instead (same cost)
-    ctx.run_hypothesis(case_strategy(ctx, m, n, shape), chk, ctx.pick(2, 3), salt="hyp")
+    ctx.run_hypothesis(case_strategy(ctx, m, n, shape), chk, ctx.pick(1, 3), salt="hyp")
 
 
 def replay(ctx, case):
